@@ -109,6 +109,8 @@ int main() {
       run_e2e(in);
     } else if (tag == "S") {
       run_subdiv(in);
+    } else if (tag == "X") {
+      run_edgeops(in);
     }
     fflush(stdout);
   }
